@@ -148,6 +148,9 @@ func (w *world) verifyFunc(con *Contract, fn *ssa.Function, mode string, variant
 			return g.t.s
 		}})
 	}
+	if con.HasOwn {
+		x.ownFootprint(st.clone(), fr, con, penv)
+	}
 	// vacuity guard: the precondition must be satisfiable
 	x.obls = append(x.obls, &obligation{Name: con.Target + "/cover[requires-satisfiable]", Kind: "cover", Pc: st.pcStrings(), Goal: "false", Decls: len(x.decls)})
 	outs := x.run(st, fr, fn.Blocks[0], 0, nil)
@@ -209,6 +212,22 @@ func (w *world) verifyFunc(con *Contract, fn *ssa.Function, mode string, variant
 			x.frameObligations(o.st, con, penv, o.ret)
 		}
 		x.fieldInvObligations(o.st, con, penv)
+	}
+	for key := range con.ClosureLoops {
+		if strings.HasSuffix(key, ":0") && !x.siteHit["range:"+strings.TrimSuffix(key, ":0")] {
+			x.fail("loop %s: no table Range over that closure is reached in %s", key, con.Target)
+		}
+	}
+	for name := range con.CbInvs {
+		if !x.cbInvHit[name] {
+			x.fail("site %s: callback-invariant: no call of %s with a callback contract is reached in %s", name, name, con.Target)
+		}
+	}
+	for name := range con.Sites {
+		if !x.siteHit[name] {
+			// a call-site assertion that never meets a call would pass vacuously
+			x.fail("site %s: no call of %s is reached in %s (calls inside inlined callees do not count)", name, name, con.Target)
+		}
 	}
 	if normal == 0 && len(con.Ensures) > 0 && !con.Flags["noreturn"] {
 		x.fail("no normally returning path reaches the postconditions of %s", con.Target)
@@ -576,7 +595,7 @@ func (w *world) discharge(x *ctx, con *Contract, mode, variant string, modelVars
 					r.SolverO = r.SolverO[:400]
 				}
 			}
-			if opts.dumpDir != "" && (r.Status == "failed" || r.Status == "undecided" || r.Status == "vacuous") {
+			if opts.dumpDir != "" && (os.Getenv("GOVC_DUMP_ALL") != "" || r.Status == "failed" || r.Status == "undecided" || r.Status == "vacuous") {
 				dumpScript(opts.dumpDir, variant+con.Target+"_"+mode+"_"+r.Name, "(set-logic ALL)\n"+script+"(check-sat)\n(get-model)\n")
 			}
 		}(o, r, script)
